@@ -23,6 +23,8 @@ type TypeMethod struct {
 	Inputs            []MethodType
 	Outputs           []MethodType
 	ReceiverIsPointer bool // true if receiver is *T, false if T
+	// ID is types.Func.Id() (see InterfaceMethod.ID); empty in hand-built models
+	ID string
 }
 
 // MethodType represents a type in method signature
@@ -159,6 +161,7 @@ func extractMethodsFromNamedType(named *types.Named) []TypeMethod {
 			Inputs:            extractMethodTypesFromTuple(sig.Params(), sig.Variadic()),
 			Outputs:           extractMethodTypesFromTuple(sig.Results(), false),
 			ReceiverIsPointer: recvIsPointer,
+			ID:                method.Id(),
 		})
 	}
 
